@@ -38,3 +38,18 @@ def crlf_flip_of_large_file():
     if n != 3000 or r.get("bounds_problem"):
         kinds.append("C16/whitespace-reformat-changed-author@large")
     return kinds, [dict(ai_lines_after=n, bounds_problem=r.get("bounds_problem"))]
+
+
+def eol_flip_after_unterminated_quote():
+    """D51: line 1 (session C) contains an opening double quote that is never closed (`# note "unterminated \\`), line 2 is session A's;
+    a person... here session C converts the file from LF to CRLF (whitespace only) => line 2 is re-attributed to C: the tokenizer lexes
+    the unterminated literal across the line break, so the changed line terminator falls inside a non-whitespace token."""
+    l1, l2 = '# tok03046_cc v62 "unterminated \\', "tok03047_aa v426"
+    old = l1 + "\n" + l2 + "\n"
+    new = l1 + "\r\n" + l2 + "\r\n"
+    r = ev(old, new, [[0, len(l1) + 1, C, 1], [len(l1) + 1, len(old), A, 1]], C)
+    got = dict((k, v) for k, v in r.get("ai_lines", []))
+    kinds = []
+    if got.get(2) != A:
+        kinds.append("C16/whitespace-reformat-changed-author@unterminated-quote")
+    return kinds, [r]
